@@ -516,6 +516,13 @@ POWER_SCENARIOS = [
 ]
 
 
+def _lenient(ex):
+    """The power scenarios fix the node kind to BinaryOp and collect ANSWERS (returns / pushes) through on_stmt; loops
+    in the arms of other kinds (element loops with an early `return None`) are not part of the scenario."""
+    ex.strict_loops = False
+    return ex
+
+
 def _power_by_scenario(prog, rep, fi):
     """R04.1 for `base ** exponent`, shape-free: the analyser is walked with `node is a BinaryOp, op == "**"` under
     five exponent scenarios (helper functions summarised, locals substituted).  A finite degree may only be answered
@@ -568,6 +575,7 @@ def _power_by_scenario(prog, rep, fi):
 
         w = SymWalker(prog, fi.module, facts, lambda st, env: None, non_none=())
         w.never_none_extra = True
+        w.lenient_loops = True      # the node kind is fixed to BinaryOp: element loops of other kinds' arms are not part of the scenario
         answers = set()
         try:
             if not iterative:
@@ -594,7 +602,7 @@ def _power_by_scenario(prog, rep, fi):
                             state["answers"].add("None" if is_none_node(v) else "finite:" + src(v)[:40])
 
                 body = [st for st in loop.body]
-                for st_, _term in Explorer(atom_truth, on_stmt, max_paths=4096).explore(body, {"env": {}, "answers": set()}):
+                for st_, _term in _lenient(Explorer(atom_truth, on_stmt, max_paths=4096)).explore(body, {"env": {}, "answers": set()}):
                     answers |= st_["answers"]
         except Exception as e:
             rep.undecided(f"{fi.name}[BinaryOp **]: scenario walk failed ({type(e).__name__}: {str(e)[:50]})")
@@ -655,6 +663,12 @@ def _verdict_is_conjunction(prog, rep, lin):
                 return UNK
         return UNK
 
+    # positively partial: a loop / comprehension over a SLICE of the constraint list consults only some constraints
+    for n_ in ast.walk(lin.node):
+        it_ = n_.iter if isinstance(n_, (ast.For, ast.comprehension)) else None
+        if isinstance(it_, ast.Subscript) and isinstance(it_.slice, ast.Slice) and src(it_.value) in ("self._constraints", "self.constraints"):
+            rep.ob("R04.4", "Problem._is_linear_problem", False, f"the linearity verdict looks at `{src(it_)}` only, not at every constraint: a non-linear constraint outside that slice leaves the problem classified as linear", loc=f"{lin.module.rel}:{getattr(it_, 'lineno', lin.node.lineno)}", detail="conjunction", robust=True)
+            return
     results = {}
     undecided = None
     for b1 in (True, False):
